@@ -62,6 +62,15 @@ var mutations = []mutation{
 	{name: "lookup-writes-through-copied-pointers", file: "dawg/dawg.go",
 		edits:  [][2]string{{"\tdawg := t\n\tindex := -1", "\ttmp := make([]*Dawg, len(t.links))\n\tcopy(tmp, t.links)\n\tif len(tmp) > 0 {\n\t\ttmp[0].numWords += 0\n\t}\n\tdawg := t\n\tindex := -1"}},
 		expect: `fname := "dawg.Dawg.Lookup"; fexported := true; gwrites := []; swrites := ["dawg.Dawg"]`, lemma: "dawg_readonly_b"},
+	{name: "iterator-caps-callers-slice-in-place", file: "itertools/combinations.go",
+		edits:  [][2]string{{"\t\titer.state = make([]int, len(iter.m))\n\t\tx := iter.k\n", "\t\titer.state = make([]int, len(iter.m))\n\t\tfor j := range iter.m {\n\t\t\tif iter.m[j] > iter.k {\n\t\t\t\titer.m[j] = iter.k\n\t\t\t}\n\t\t}\n\t\tx := iter.k\n"}},
+		expect: "", lemma: "borrowed_not_written_b"},
+	{name: "view-sorts-callers-vertex-list", file: "graph/subgraph.go",
+		edits:  [][2]string{{"func (h inducedSubgraph) Neighbours(v int) []int {\n", "func (h inducedSubgraph) Neighbours(v int) []int {\n\tints.Reverse(h.verts)\n\tints.Reverse(h.verts)\n"}},
+		expect: `("ints.Reverse", "p0", "graph.inducedSubgraph.verts")`, lemma: "graph_readonly_b"},
+	{name: "add-sorts-callers-slice", file: "sortints/sorted_ints.go",
+		edits:  [][2]string{{"\tx = tmp\n\tsort.Ints(x)\n", "\t_ = tmp\n\tsort.Ints(x)\n"}},
+		expect: "", lemma: "W_exported_b"},
 	{name: "go-statement", file: "comb/comb.go",
 		edits:  [][2]string{{"func Coeff(n, k int) int {\n", "func Coeff(n, k int) int {\n\tgo func() {}()\n"}},
 		expect: `gostmts := 1`, lemma: "no_go_statements_b"},
@@ -221,12 +230,12 @@ func TestEffectsFailClosed(t *testing.T) {
 		haveCoq = false
 		t.Log("coqc not found: only the table differences are checked")
 	}
-	coqFiles := []string{"Gen/Effects.v", "Effects/Closure.v", "Effects/Flow.v", "Effects/Instance.v", "Props/C19.v"}
+	coqFiles := []string{"Gen/Effects.v", "Effects/Closure.v", "Effects/Flow.v", "Effects/Fields.v", "Effects/Instance.v", "Props/C19.v"}
 	if haveCoq {
 		for _, d := range []string{"Effects", "Gen", "Props"} {
 			os.MkdirAll(filepath.Join(coq, d), 0o755)
 		}
-		for _, f := range []string{"Effects/Skel.v", "Effects/Closure.v", "Effects/Flow.v", "Effects/Chan.v", "Effects/Instance.v", "Props/C19.v"} {
+		for _, f := range []string{"Effects/Skel.v", "Effects/Closure.v", "Effects/Flow.v", "Effects/Fields.v", "Effects/Chan.v", "Effects/Instance.v", "Props/C19.v"} {
 			b, err := os.ReadFile(filepath.Join(verifCoq, f))
 			if err != nil {
 				t.Fatal(err)
